@@ -187,6 +187,9 @@ SetInclude ==
   /\ m.include.k = "none" /\ m.exclude.k = "none"
   /\ \/ "expr" \in IncKinds /\ m' = [m EXCEPT !.include = [k |-> "expr", cs |-> <<>>]]
      \/ "elemexpr" \in IncKinds /\ m' = [m EXCEPT !.include = [k |-> "list", cs |-> <<ExprCombo, Lit(<<<<"os", U[1]>>>>)>>]]
+     \* the expression element AFTER a literal one, and between two literal ones (its position must not matter)
+     \/ "elemexpr2" \in IncKinds /\ m' = [m EXCEPT !.include = [k |-> "list", cs |-> <<Lit(<<<<"os", U[1]>>>>), ExprCombo>>]]
+     \/ "elemexpr2" \in IncKinds /\ m' = [m EXCEPT !.include = [k |-> "list", cs |-> <<Lit(<<<<"os", U[1]>>>>), ExprCombo, Lit(<<<<"new", U[2]>>>>)>>]]
      \/ \E key \in {"os", "new"}, u \in IncU :
           "lit" \in IncKinds /\ m' = [m EXCEPT !.include = [k |-> "list", cs |-> <<Lit(<<<<key, U[u]>>>>)>>]]
 SetExclude ==
